@@ -8,3 +8,6 @@ package syslog
 //@   ensures[C12] ghost.sinkWrites <= old(ghost.sinkWrites) + 1
 //@   ensures[C12] ghost.acctStatus == tq.AcctReplyStatusSuccess ==> (ghost.sinkWrites == old(ghost.sinkWrites) + 1 && ghost.sinkAtReply == ghost.sinkWrites)
 //@   requires a.loggerProvider != nil
+//@   modifies ghost.lastJSON
+//@   after[C12] json.Marshal : ghost.lastJSON = ret0
+//@   before[C12] Writer.Write : arg1 == ghost.lastJSON
